@@ -1,22 +1,168 @@
-"""C18(c), chain-service side: forged-before-genuine block deliveries (harness/internal/verifnode/verif_identity_test.go).
-Called from checks/c18.py (run_chain_identity)."""
-import json, os
+"""C18(c), chain-service side: forged-before-genuine block deliveries.
+ - run_chain_identity(c): hand-written families (altered header field / emptied body on the blocks of tree T0 in several
+   arrival orders), harness/internal/verifnode/verif_identity_test.go.  Called from checks/c18.py and checks/c09.py.
+ - with bodies=...: additionally the model-derived sequences of the "cs" component of spec/p2p/BlockRecv.tla (genuine blocks
+   of 1..12 transactions, every altered copy incl. every body with the genuine root by the merkle padding rule),
+   harness/internal/verifnode/verif_identity_bodies_test.go.  Called from checks/c18.py only."""
+import concurrent.futures, hashlib, json, os, shutil, subprocess
 import vlib
 from checks import chaindb_common as cc
 
+PKG = "./internal/verifnode/"
+HEADER_FIELDS = ["ChainID", "PrevBlockHash", "BlockNo", "Timestamp", "BlocksRootHash", "TxsRootHash", "ReceiptsRootHash", "Confirms",
+                 "PubKey", "CoinbaseAccount", "Sign", "Consensus"]
 
-def run_chain_identity(c):
+
+# --------------------------------------------------------------------------- sequences of the chain-service component
+
+def _skey(s):
+    return (s["gn"], bool(s["conn"]["on"]), tuple(s["conn"]["body"]), bool(s["bad"]), s["narr"])
+
+
+def _ikey(it):
+    return (it["hdr"], tuple(it["body"]), it["kind"])
+
+
+class CsGraph:
+    """Transitions printed by Gen_BlockRecvCS.cfg: (state, item) -> (result, next state)."""
+
+    def __init__(self, trs):
+        self.out, self.items = {}, {}
+        for (s, a, d) in trs:
+            if a.get("name") != "Arrive":
+                continue
+            self.out[(_skey(s), _ikey(a["it"]))] = (a["res"], d)
+            if s["narr"] == 0:
+                self.items.setdefault(s["gn"], []).append(a["it"])
+        for n in self.items:
+            self.items[n].sort(key=lambda it: (it["kind"], it["hdr"], it["body"]))
+        if len(self.items) < 12 or not all(any(it["kind"] == "padded" for it in self.items[n]) for n in (3, 5, 6, 7, 9, 10, 11, 12)):
+            raise vlib.Infra("chain-service transitions incomplete: sizes %s" % sorted(self.items))
+
+    def genuine(self, n):
+        return [it for it in self.items[n] if it["kind"] == "genuine"][0]
+
+    def seq(self, n, items, name=None):
+        st = {"gn": n, "conn": {"on": False, "body": []}, "bad": [], "narr": 0}
+        steps = []
+        for it in items:
+            k = (_skey(st), _ikey(it))
+            if k not in self.out:
+                raise vlib.Infra("no transition of BlockRecv.tla (cs) for %s from %s" % (it, st))
+            res, st = self.out[k]
+            steps.append({"it": {"hdr": it["hdr"], "body": list(it["body"]), "kind": it["kind"]}, "res": res,
+                          "conn_on": bool(st["conn"]["on"]), "conn_body": list(st["conn"]["body"]), "bad": bool(st["bad"])})
+        d = {"n": n, "steps": steps}
+        if name:
+            d["name"] = name
+        return d
+
+
+def chain_body_sequences(trs, tier, rng, counterexample=None):
+    g = CsGraph(trs)
+    seqs = []
+    if counterexample:       # (n, items) of TLC's counterexample of the variant without the repeated-transaction guard
+        n, items = counterexample
+        seqs.append(g.seq(n, items, "noguard-counterexample"))
+    for n in sorted(g.items):
+        gen = g.genuine(n)
+        forged = [it for it in g.items[n] if it["kind"] != "genuine"]
+        for f in g.items[n]:                                  # the copy first, then the genuine block (genuine twice included)
+            seqs.append(g.seq(n, [f, gen]))
+        body_forged = [it for it in forged if it["hdr"] == "a"]
+        if tier == "quick":
+            seqs.append(g.seq(n, [gen, rng.choice(forged), gen]))
+            seqs.append(g.seq(n, [rng.choice(body_forged), rng.choice(forged), gen]))
+        else:
+            for f in forged:                                  # the genuine block first: a later copy must not replace or unseat it
+                seqs.append(g.seq(n, [gen, f, gen]))
+            for _ in range(8):
+                seqs.append(g.seq(n, [rng.choice(body_forged), rng.choice(forged), gen]))
+    npad = sum(1 for n in g.items for it in g.items[n] if it["kind"] == "padded")
+    return seqs, dict(items=sum(len(v) for v in g.items.values()), padded=npad, sizes=len(g.items))
+
+
+def counterexample_items(res):
+    """(n, [items]) of a TLC counterexample over the cs component."""
+    items, n = [], None
+    for (_a, st) in res.error_trace[1:]:
+        la = st.get("lastAct")
+        if not isinstance(la, dict) or la.get("name") != "Arrive":
+            raise vlib.Infra("cannot read the counterexample of the chain-service component:\n%s" % res.out[-2000:])
+        items.append(la["it"])
+        n = st.get("gn")
+    if not items or n is None:
+        raise vlib.Infra("empty counterexample of the chain-service component")
+    return n, items
+
+
+# --------------------------------------------------------------------------- running
+
+def _identity_input(c):
     orders = [["a1", "a2", "b1", "b2", "b3"], ["a1", "b1", "b2", "a2", "b3"], ["b2", "b1", "a1", "a2", "b3"]]
     if c.tier == "thorough":
         orders += [["b3", "b2", "b1", "a1", "a2"], ["a2", "a1", "b3", "b1", "b2"], ["b1", "b2", "b3", "a1", "a2"]]
-    inp = dict(tree=cc.TREES["T0"], behaviours=[], public=False, coinbase=False, reference=False, orders=orders)
-    inpath = os.path.join(c.work, "identity_in.json")
-    json.dump(inp, open(inpath, "w"))
-    nsh = 4
-    outs = [os.path.join(c.work, "identity_out_%d.json" % i) for i in range(nsh)]
-    rs = vlib.go_test_sharded("./internal/verifnode/", "^TestVerifBlockIdentity$", nsh,
-                              lambda i: {"VERIF_IN": inpath, "VERIF_OUT": outs[i], "VERIF_SEED": c.seed, "VERIF_TIER": c.tier}, timeout=1200)
+    return dict(tree=cc.TREES["T0"], behaviours=[], public=False, coinbase=False, reference=False, orders=orders)
+
+
+def _absorb(c, what, outs, rs):
     for i, (rc, out) in enumerate(rs):
         r = c.absorb_go(outs[i], out)
         if rc != 0 and not r.get("violations"):
-            raise vlib.Infra("identity harness shard %d failed:\n%s" % (i, "\n".join(l for l in out.splitlines() if not l.startswith('{"level'))[-3000:]))
+            raise vlib.Infra("%s harness shard %d failed:\n%s" % (what, i, "\n".join(l for l in out.splitlines() if not l.startswith('{"level'))[-3000:]))
+
+
+def run_chain_identity(c, exe=None, bodies=None, rng=None):
+    inpath = os.path.join(c.work, "identity_in.json")
+    json.dump(_identity_input(c), open(inpath, "w"))
+    nsh = 4
+    outs = [os.path.join(c.work, "identity_out_%d.json" % i) for i in range(nsh)]
+    if exe is None and bodies is None:
+        rs = vlib.go_test_sharded(PKG, "^TestVerifBlockIdentity$", nsh,
+                                  lambda i: {"VERIF_IN": inpath, "VERIF_OUT": outs[i], "VERIF_SEED": c.seed, "VERIF_TIER": c.tier}, timeout=1200)
+        _absorb(c, "identity", outs, rs)
+        return
+    # C18: one test binary (built by the caller next to the p2p harnesses, or here), both tests, all shards side by side
+    own = exe is None
+    if own:
+        ov = vlib.gen_overlay()
+        bindir = os.path.join(vlib.WORK, "gobin")
+        os.makedirs(bindir, exist_ok=True)
+        exe = os.path.join(bindir, "c18chain-%s-%d.test" % (hashlib.sha1(vlib.REPO.encode()).hexdigest()[:10], os.getpid()))
+        r = subprocess.run(["go", "test", "-c", "-tags", "verif", "-overlay", ov, "-vet=off", "-o", exe, PKG], cwd=vlib.REPO, env=vlib.goenv(),
+                           capture_output=True, text=True, timeout=2400)
+        if r.returncode != 0 or not os.path.exists(exe):
+            raise vlib.Infra("harness does not build (%s):\n%s" % (PKG, (r.stdout + r.stderr)[-4000:]))
+    jobs = [("identity", "^TestVerifBlockIdentity$", i, inpath, outs[i]) for i in range(nsh)]
+    bouts = []
+    if bodies is not None:
+        bpath = os.path.join(c.work, "identity_bodies_in.json")
+        json.dump(bodies, open(bpath, "w"))
+        bouts = [os.path.join(c.work, "identity_bodies_out_%d.json" % i) for i in range(nsh)]
+        jobs += [("bodies", "^TestVerifBlockIdentityBodies$", i, bpath, bouts[i]) for i in range(nsh)]
+
+    def one(j):
+        what, run, i, ip, op = j
+        cwd = os.path.join(c.work, "cwd-%s-%d" % (what, i))
+        os.makedirs(cwd, exist_ok=True)
+        e = {"VERIF_IN": ip, "VERIF_OUT": op, "VERIF_SEED": c.seed, "VERIF_TIER": c.tier, "VERIF_SHARD": "%d/%d" % (i, nsh), "TMPDIR": cwd}
+        try:
+            p = subprocess.run([exe, "-test.run", run, "-test.timeout", "1200s", "-test.count", "1"], cwd=cwd, env=vlib.goenv(e),
+                               capture_output=True, text=True, timeout=1260)
+            return p.returncode, p.stdout + p.stderr
+        except subprocess.TimeoutExpired:
+            return 124, "timeout"
+        finally:
+            shutil.rmtree(cwd, ignore_errors=True)
+    try:
+        with concurrent.futures.ThreadPoolExecutor(max_workers=len(jobs)) as ex:
+            rs = list(ex.map(one, jobs))
+    finally:
+        if own:
+            try:
+                os.remove(exe)
+            except OSError:
+                pass
+    _absorb(c, "identity", outs, rs[:nsh])
+    if bouts:
+        _absorb(c, "identity-bodies", bouts, rs[nsh:])
